@@ -47,7 +47,8 @@ VARIABLES cfg,        \* the scenario
           ipos,       \* shared host iterator: hosts handed out so far
           cnt,        \* shared counter: Query.Attempts()
           started,    \* attempts started so far
-          launched,   \* executions launched
+          spawned,    \* executions started by executeQuery (go q.run / the direct call of do)
+          launched,   \* executions that have made their first host iterator call
           chan,       \* results channel (capacity 1): a result or NoRes
           ret,        \* what executeQuery is about to return / has returned
           cancelled,  \* the caller's context was cancelled
@@ -56,7 +57,7 @@ VARIABLES cfg,        \* the scenario
           hist,       \* ghost: observable history (if KeepHist)
           last        \* the event emitted by the latest visible step
 
-vars == <<cfg, ex, ipos, cnt, started, launched, chan, ret, cancelled, returned, g, hist, last>>
+vars == <<cfg, ex, ipos, cnt, started, spawned, launched, chan, ret, cancelled, returned, g, hist, last>>
 
 NoRes == [att |-> -1, eord |-> -1, x |-> "none"]
 Res(att, eord, x) == [att |-> att, eord |-> eord, x |-> x]
@@ -72,7 +73,7 @@ DecisionsFor(o) ==
 InitWith(c) ==
   /\ cfg = c
   /\ ex = [e \in E |-> Ex0]
-  /\ ipos = 0 /\ cnt = 0 /\ started = 0 /\ launched = 0
+  /\ ipos = 0 /\ cnt = 0 /\ started = 0 /\ spawned = 1 /\ launched = 0
   /\ chan = NoRes /\ ret = NoRes
   /\ cancelled = FALSE /\ returned = FALSE
   /\ g = MonInit /\ hist = <<>> /\ last = NoEv
@@ -104,21 +105,26 @@ DoPick(e) ==
      ELSE ex' = [ex EXCEPT ![e] = [r EXCEPT !.cur = h, !.pc = IF cfg.hosts[h] = "ok" THEN "ready" ELSE "pick"]]
   /\ Emit(Ev("pick", e, h, 0, "", ""))
 
-\* an execution starts (the main one; a speculative one on a tick of the policy's timer, only
-\* for idempotent queries with k > 0, at most k of them, and only while executeQuery has not
-\* got a result).  Its first action is its first call of the host iterator.
+\* executeQuery starts the main execution at once (spawned = 1 initially) and a speculative one
+\* on every tick of the policy's timer - only for idempotent queries with k > 0, at most k of
+\* them, and only while it has not got a result (silent: `go q.run(...)`)
+Spawn ==
+  /\ SpecMode /\ spawned < cfg.k + 1 /\ ret = NoRes
+  /\ spawned' = spawned + 1
+  /\ UNCHANGED <<cfg, ex, ipos, cnt, started, launched, chan, ret, cancelled, returned, g, hist, last>>
+
+\* the first action of an execution is its first call of the host iterator; executions are
+\* numbered in the order of these calls
 Launch(e) ==
-  /\ e = launched + 1
-  /\ e <= (IF SpecMode THEN cfg.k + 1 ELSE 1)
-  /\ ret = NoRes
+  /\ e = launched + 1 /\ e <= spawned
   /\ launched' = e
   /\ DoPick(e)
-  /\ UNCHANGED <<cfg, cnt, started, chan, ret, cancelled, returned>>
+  /\ UNCHANGED <<cfg, cnt, started, spawned, chan, ret, cancelled, returned>>
 
 Pick(e) ==
   /\ ex[e].pc = "pick"
   /\ DoPick(e)
-  /\ UNCHANGED <<cfg, cnt, started, launched, chan, ret, cancelled, returned>>
+  /\ UNCHANGED <<cfg, cnt, started, spawned, launched, chan, ret, cancelled, returned>>
 
 \* identity of an attempt: the i-th attempt of execution e (no global order in the state)
 Aid(e, i) == 10 * e + i
@@ -129,7 +135,7 @@ Start(e) ==
   /\ started' = started + 1
   /\ ex' = [ex EXCEPT ![e] = [@ EXCEPT !.pc = "run", !.i = @ + 1, !.ord = Aid(e, ex[e].i + 1), !.ref = CtxDead]]
   /\ Emit(Ev("start", e, ex[e].cur, Aid(e, ex[e].i + 1), IF CtxDead THEN "refused" ELSE "sent", ""))
-  /\ UNCHANGED <<cfg, ipos, cnt, launched, chan, ret, cancelled, returned>>
+  /\ UNCHANGED <<cfg, ipos, cnt, spawned, launched, chan, ret, cancelled, returned>>
 
 \* the attempt returns (the environment's choice of outcome) and qry.attempt() adds it to the
 \* shared counter; then success, a context error, or the absence of a retry policy end the
@@ -144,7 +150,7 @@ End(e, o) ==
      THEN Finish(e, r, ThisRes(r))
      ELSE ex' = [ex EXCEPT ![e] = [r EXCEPT !.pc = "pol"]]
   /\ Emit(Ev("end", e, ex[e].cur, ex[e].ord, o, ""))
-  /\ UNCHANGED <<cfg, ipos, started, launched, chan, ret, cancelled, returned>>
+  /\ UNCHANGED <<cfg, ipos, started, spawned, launched, chan, ret, cancelled, returned>>
 
 \* rt.Attempt(qry): the budget over the shared counter
 Allow(e) ==
@@ -155,7 +161,7 @@ Allow(e) ==
      THEN ex' = [ex EXCEPT ![e] = [r EXCEPT !.pc = "dec", !.lerr = r.ord, !.lerrx = r.out]]
      ELSE Finish(e, r, ThisRes(r))
   /\ Emit(Ev("allow", e, 0, cnt, IF yes THEN "yes" ELSE "no", ""))
-  /\ UNCHANGED <<cfg, ipos, cnt, started, launched, chan, ret, cancelled, returned>>
+  /\ UNCHANGED <<cfg, ipos, cnt, started, spawned, launched, chan, ret, cancelled, returned>>
 
 \* rt.GetRetryType(err): same host / next offered host / stop.  A query that is not marked
 \* idempotent is never retried, whatever the policy says.
@@ -173,14 +179,14 @@ Decide(e, d) ==
      \/ /\ mayStop
         /\ IF d = "unknown" THEN Finish(e, r, Res(0, 0, "unknownretry")) ELSE Finish(e, r, ThisRes(r))
   /\ Emit(Ev("decide", e, 0, 0, d, r.out))
-  /\ UNCHANGED <<cfg, ipos, cnt, started, launched, chan, ret, cancelled, returned>>
+  /\ UNCHANGED <<cfg, ipos, cnt, started, spawned, launched, chan, ret, cancelled, returned>>
 
 \* environment: the caller cancels its context
 Cancel ==
   /\ cfg.cancel /\ ~cancelled /\ ret = NoRes
   /\ cancelled' = TRUE
   /\ Emit(Ev("cancel", 0, 0, 0, "", ""))
-  /\ UNCHANGED <<cfg, ex, ipos, cnt, started, launched, chan, ret, returned>>
+  /\ UNCHANGED <<cfg, ex, ipos, cnt, started, spawned, launched, chan, ret, returned>>
 
 \* run(): `select { case results <- iter: case <-ctx.Done(): }` (silent)
 Deliver(e) ==
@@ -188,7 +194,7 @@ Deliver(e) ==
   /\ \/ chan = NoRes /\ ret = NoRes /\ chan' = ex[e].res
      \/ CtxDead /\ chan' = chan
   /\ ex' = [ex EXCEPT ![e].pc = "fin"]
-  /\ UNCHANGED <<cfg, ipos, cnt, started, launched, ret, cancelled, returned, g, hist, last>>
+  /\ UNCHANGED <<cfg, ipos, cnt, started, spawned, launched, ret, cancelled, returned, g, hist, last>>
 
 \* executeQuery obtains its result (silent): `do` returned (no speculation), or the first
 \* result sent on the channel, or - in speculative mode - the caller's context ended
@@ -198,13 +204,13 @@ Recv ==
         /\ ex' = [ex EXCEPT ![1].pc = "fin"] /\ chan' = chan
      \/ SpecMode /\ chan # NoRes /\ ret' = chan /\ chan' = NoRes /\ ex' = ex
      \/ SpecMode /\ cancelled /\ ret' = Res(0, 0, "canceled") /\ chan' = chan /\ ex' = ex
-  /\ UNCHANGED <<cfg, ipos, cnt, started, launched, cancelled, returned, g, hist, last>>
+  /\ UNCHANGED <<cfg, ipos, cnt, started, spawned, launched, cancelled, returned, g, hist, last>>
 
 Return ==
   /\ ret # NoRes /\ ~returned
   /\ returned' = TRUE
   /\ Emit(Ev("return", 0, ret.eord, ret.att, ret.x, ""))
-  /\ UNCHANGED <<cfg, ex, ipos, cnt, started, launched, chan, ret, cancelled>>
+  /\ UNCHANGED <<cfg, ex, ipos, cnt, started, spawned, launched, chan, ret, cancelled>>
 
 Terminal == returned /\ \A e \in E : ex[e].pc \in {"idle", "fin"}
 
@@ -218,12 +224,13 @@ Terminal == returned /\ \A e \in E : ex[e].pc \in {"idle", "fin"}
 (* behaviour replayable on the real code.                                  *)
 (***************************************************************************)
 Urgent ==
+  \/ launched < spawned
   \/ \E e \in E : ex[e].pc \in {"pick", "done"}
   \/ ret = NoRes /\ SpecMode /\ (chan # NoRes \/ cancelled)
   \/ ret # NoRes /\ ~returned
 
 UrgentNext ==
-  \/ \E e \in E : Pick(e) \/ Deliver(e)
+  \/ \E e \in E : Launch(e) \/ Pick(e) \/ Deliver(e)
   \/ Recv \/ Return
 
 VisibleNext ==
@@ -231,7 +238,7 @@ VisibleNext ==
   \/ \E e \in E, o \in cfg.outs \cup {"canceled"} : End(e, o)
   \/ \E e \in E, d \in Decisions : Decide(e, d)
   \/ Cancel \/ Return
-SilentNext == Recv \/ \E e \in E : Deliver(e)
+SilentNext == Spawn \/ Recv \/ \E e \in E : Deliver(e)
 
 Next ==
   \/ (IF GateAtomic /\ Urgent THEN UrgentNext ELSE (VisibleNext \/ SilentNext))
@@ -262,7 +269,7 @@ DirectBound == Sent <= PolBmax(cfg.pol) + launched
 \* ... which is budget + 1 without speculation
 DirectBoundSequential == ~SpecMode => started <= PolBmax(cfg.pol) + 1
 DirectNonIdem == ~cfg.idem => launched <= 1 /\ (NonIdemRetry \/ started <= 1)
-DirectSpeculation == launched <= 1 + (IF cfg.idem THEN cfg.k ELSE 0)
+DirectSpeculation == launched <= spawned /\ spawned <= 1 + (IF cfg.idem THEN cfg.k ELSE 0)
 \* an execution that observed the cancellation attempts nothing more: it is finished
 DirectCancel == \A e \in E : ex[e].out = "canceled" => ex[e].pc \in {"done", "fin"}
 \* the result handed to the caller is a finished execution's result
@@ -277,5 +284,5 @@ BoundNotReached == ~(launched = 3 /\ PolBmax(cfg.pol) = 2 /\ Sent = PolBmax(cfg.
 Terminates == <>returned
 
 \* model-checking view: the latest event and the history are not part of the state
-View == <<cfg, ex, ipos, cnt, started, launched, chan, ret, cancelled, returned, g>>
+View == <<cfg, ex, ipos, cnt, started, spawned, launched, chan, ret, cancelled, returned, g>>
 =============================================================================
